@@ -26,7 +26,7 @@ def apen(sequence, m=1, r=0):
     if type(sequence) is str:
         U = np.array([int(x) for x in sequence])
     elif type(sequence) is list:
-        U = list(sequence)
+        U = [x.item() if isinstance(x, np.generic) else x for x in sequence]
     elif type(sequence) is np.ndarray:
         U = sequence.tolist()
     else:
